@@ -17,7 +17,7 @@ PROPS = {}
 # properties not claimed (yet or ever), with the one-line reason that goes into MANIFEST.not_applicable
 _WIP = "check not built yet in this round (planned, see DESIGN.md section 5)"
 NOT_APPLICABLE = {
-    "C02": _WIP, "C06": _WIP,
+    "C06": _WIP,
     "C12": _WIP,
     "C03": "accept/reject and AST construction live in a proc-macro-generated PEG parser over `str`; Verus cannot reason about str/macro output and Kani cannot carry a symbolic text past the mandatory header, so no contract within reach states 'accepts exactly this language'",
     "C16": "composes core::fmt/pad string formatting with the pest parser over all ASTs; both halves are str-level and outside what Verus accepts or Kani can bound meaningfully",
@@ -27,6 +27,7 @@ NOT_APPLICABLE = {
 PROPS["C08"] = {
     "inject": [("emulator-2a-lib/src/machine/alu.rs", "c08_alu.rs", "verif_c08")],
     "functions": ["machine::alu::AluOutput::from_input", "<AluSelect as FromPrimitive>::from_u8 (decoder used by the CPU)"],
+    "verus": "c08",
     "timeout": 300,
     "technique": "function contract (postcondition = documented function table) on AluOutput::from_input, discharged over the full input space by Kani/CBMC and by Verus on the extracted body",
     "level_text": "Proof: for each of the 16 functions the postcondition result/carry/zero/negative == documented table is discharged for all 256x256x2 inputs by a loop-free symbolic query on the real function (complete, no bound).",
@@ -35,7 +36,8 @@ PROPS["C08"] = {
         {"obligation": "C08.ADDH.carry", "text": "forall a,b:u8, cin:bool. from_input(a,b,cin,ADDH).carry_out == (cin || a+b > 255)", "domain": "256 x 256 x 2, symbolic"},
         {"obligation": "C08.RR.result", "text": "forall a. from_input(a,_,_,RR).output == (a>>1) | (a&1)<<7", "domain": "symbolic"},
     ],
-    "trusted": [],
+    "trusted": ["Verus 0.2026.09.13 / Z3 (second back end on the mechanically extracted body)",
+                "assume_specification for u8::overflowing_add, u8::overflowing_shr and <u8 as From<bool>>::from (Verus only; Kani executes the real std code bit-precisely)"],
     "assumptions": ["carry-out of A / NOR / ZERO (not given by the statement) is characterised from the pinned tree as 0"],
 }
 
@@ -289,4 +291,19 @@ PROPS["C11"] = {
     "samples": [{"obligation": "C11.T.loop.never-more-edges-than-needed", "text": "the step stops right after the first edge that halts the machine / completes the instruction / leaves a stuck machine unchanged", "domain": "all traces of the abstract edge up to 6 edges"}],
     "trusted": ["kani::stub(RawMachine::trigger_clock_edge -> abstract_edge) in T.loop: the callee is represented by its contract"],
     "assumptions": [],
+}
+
+PROPS["C02"] = {
+    "inject": [("emulator-2a-lib/src/compiler.rs", "c02_translator.rs", "verif_c02")],
+    "groups": [{"match": ".*", "flags": ["-Z", "stubbing"]}],
+    "functions": ["Translator::push_instruction", "Translator::push", "Translator::finish", "compile_instruction_mov", "from_bases_dst_and_src", "from_bases_and_src",
+                  "from_base_and_reg", "from_base_and_two_regs", "relative_jump (incl. the returned closure)", "source_addr_mode / source_register / destination_addr_mode / destination_register / reg_to_u8"],
+    "timeout": 600,
+    "technique": "function contracts on the translator: per-line postcondition (emitted items == documented encoding, address counter advances by the emitted bytes, label table/limits frame), label definition and late substitution; Kani/CBMC over symbolic instructions of every variant and operand shape",
+    "level_text": "Proof (partial, see note) per source line: for each one-byte instruction variant, each jump/call (label item and the relative-offset closure target-(address+2) mod 256), DEC with all five operand shapes, .ORG forward, .BYTE n, *STACKSIZE and *PROGRAMSIZE, with symbolic registers/constants and a symbolic address counter, the real push_instruction emits exactly the documented encoding, advances the counter by the emitted length and leaves label table and limits alone; the two-byte vector builders are proved against the reference for the register / (R+) / ((R+)) source shapes and all four register-based destination shapes; the mode/register field functions for every shape.",
+    "level_note": "Trusted: Kani/CBMC, rustc, enc_ref (my transcription of the documented encoding = dispatch layout of the control store), kani::stub(RandomState::new -> fixed keys); label texts are fixed strings (parametricity). NOT DECIDED (verifier runs out of memory on heap-string clones / hash-map probing / iterator adapters): two-byte forms whose operand carries a constant, label, absolute address or (R) source (their mode/register fields ARE proved), .DB/.DW data bytes, label definition + late substitution in finish (case-insensitive lookup), and the whole-image concatenation; these parts of the statement are not claimed. BOUNDED: .ORG/.BYTE fill <= 5.",
+    "bounded": ["c02_d_org / c02_d_byte: fill lengths <= 5 (unwind 8)"],
+    "samples": [{"obligation": "C02.P.push.items-are-documented-encoding", "text": "push_instruction(inst) appends exactly enc_ref(inst, next_addr)", "domain": "every Instruction variant x operand shape x register, symbolic constants and address"}],
+    "trusted": ["kani::stub(std::hash::RandomState::new -> fixed keys)"],
+    "assumptions": ["parametricity in label text"],
 }
